@@ -118,6 +118,15 @@ func forgetFragment() fragmentationContext {
 }
 
 func (c *Conversation) receiveFragment(beforeCtx fragmentationContext, data ValidMessage) (fragmentationContext, error) {
+	versionBefore, theirTagBefore := c.version, c.theirInstanceTag
+	// a fragment that is rejected or discarded neither commits the conversation to its protocol
+	// version nor binds it to the instance it names
+	unbind := func() {
+		if versionBefore == nil {
+			c.version = nil
+		}
+		c.theirInstanceTag = theirTagBefore
+	}
 	fragBody, ignore, ok1 := c.parseFragmentPrefix(data)
 	resultData, ix, l, ok2 := parseFragment(fragBody)
 
@@ -127,11 +136,13 @@ func (c *Conversation) receiveFragment(beforeCtx fragmentationContext, data Vali
 	}
 
 	if !ok1 || !ok2 {
+		unbind()
 		return beforeCtx, newOtrError("invalid OTR fragment")
 	}
 
 	switch {
 	case fragmentIsInvalid(ix, l):
+		unbind()
 		return beforeCtx.discardFragment(), nil
 	case fragmentIsFirstMessage(ix, l):
 		return restartFragment(resultData, ix, l), nil
